@@ -12,12 +12,12 @@
 (* Diagnostics are classed: "vm" (register machine, paint, enabling),       *)
 (* "raster" (geometry / call structure), "arc" (arc end point / shape).     *)
 (***************************************************************************)
-EXTENDS Renderer, TLC, Json, IOUtils
+EXTENDS Generator, TLC, Json, IOUtils
 
 Trace == ndJsonDeserialize(IOEnv.VERIF_TRACE)
 
-VARIABLES l, srcLine, r, skip, nbad, njudged, nskipgeo
-vars == << l, srcLine, r, skip, nbad, njudged, nskipgeo >>
+VARIABLES l, srcLine, r, skip, nbad, njudged, nskipgeo, h0
+vars == << l, srcLine, r, skip, nbad, njudged, nskipgeo, h0 >>
 
 Has(x, f) == f \in DOMAIN x
 Tol == 256                                 \* 2^-8 pixel in units of 2^-16
@@ -136,23 +136,64 @@ Diag(class, what, want) ==
                  ev |-> Trace[l], want |-> want]))
 Bad(class, what, want) ==
   /\ Diag(class, what, want)
-  /\ nbad' = nbad + 1 /\ skip' = TRUE /\ UNCHANGED << srcLine, r, njudged, nskipgeo >>
+  /\ nbad' = nbad + 1 /\ skip' = TRUE /\ UNCHANGED << srcLine, r, njudged, nskipgeo, h0 >>
 
 Init == l = 1 /\ srcLine = 0 /\ r = RInit(<< 0, 0, 1, 1 >>) /\ skip = FALSE /\ nbad = 0
-        /\ njudged = 0 /\ nskipgeo = 0
+        /\ njudged = 0 /\ nskipgeo = 0 /\ h0 = RInit(<< 0, 0, 1, 1 >>)
 
 TVSrc ==
   /\ Trace[l].ev = "rsrc"
   /\ srcLine' = l /\ r' = RInit(Trace[l].rect) /\ skip' = FALSE
-  /\ UNCHANGED << nbad, njudged, nskipgeo >>
+  /\ UNCHANGED << nbad, njudged, nskipgeo, h0 >>
 
 (* SetRasterizer on the same Renderer: new target rectangle, transform recomputed *)
 TVSet ==
   /\ Trace[l].ev = "rset" /\ ~skip
   /\ r' = [r EXCEPT !.rect = Trace[l].rect, !.g = Geo(r.vb, Trace[l].rect)]
-  /\ UNCHANGED << srcLine, skip, nbad, njudged, nskipgeo >>
+  /\ UNCHANGED << srcLine, skip, nbad, njudged, nskipgeo, h0 >>
 
-TVSkip == Trace[l].ev # "rsrc" /\ skip /\ UNCHANGED << srcLine, r, skip, nbad, njudged, nskipgeo >>
+(* a call made to a destination whose state is not observed (e.g. an Encoder): *)
+(* only the model advances, so that helper post-conditions can be judged        *)
+TVMCall ==
+  /\ Trace[l].ev = "mcall" /\ ~skip
+  /\ r' = RStep(r, Trace[l].call).r
+  /\ UNCHANGED << srcLine, skip, nbad, njudged, nskipgeo, h0 >>
+
+(* a selector read-back answered by the real destination *)
+TVRead ==
+  /\ Trace[l].ev = "read" /\ ~skip
+  /\ LET ev == Trace[l]
+         want == IF ev.which = "CSel" THEN r.cSel ELSE r.nSel IN
+     IF ev.val % 64 # want THEN Bad("sel", "selector read-back", want)
+     ELSE UNCHANGED << srcLine, r, skip, nbad, njudged, nskipgeo, h0 >>
+
+(* Generator gradient helpers: hstart before the helper runs, helper after *)
+TVHStart ==
+  /\ Trace[l].ev = "hstart" /\ ~skip
+  /\ h0' = r /\ UNCHANGED << srcLine, r, skip, nbad, njudged, nskipgeo >>
+
+HelperArgs(ev, q) ==
+  [shape |-> ev.shape, spread |-> ev.spread,
+   stops |-> [i \in 1..Len(ev.stops) |-> [c |-> ev.stops[i].c, o |-> ev.stops[i].o]],
+   m |-> IF ev.m # << >> THEN ev.m ELSE [i \in 1..6 |-> r.nReg[Reg(GradNBase(q) - 7 + i + 64)]]]
+GeomOK(ev, m) ==
+  CASE ev.geom.kind = "linear" -> LinearGeom(m, ev.geom.p1, ev.geom.p2)
+    [] ev.geom.kind = "circular" -> CircularGeom(m, ev.geom.c, ev.geom.rv)
+    [] ev.geom.kind = "elliptical" -> EllipticalGeom(m, ev.geom.c, ev.geom.rv, ev.geom.sv)
+    [] OTHER -> TRUE
+TVHelper ==
+  /\ Trace[l].ev = "helper" /\ ~skip
+  /\ LET ev  == Trace[l]
+         rej == Rejected(h0.cSel, Len(ev.stops))
+         q   == r.cReg[Reg(h0.cSel)]
+         a   == HelperArgs(ev, q) IN
+     IF ev.ret # rej THEN Bad("gen", "helper accepted/rejected wrongly", rej)
+     ELSE IF rej # "" /\ (ev.ncalls # 0 \/ r # h0) THEN Bad("gen", "helper wrote before rejecting", rej)
+     ELSE IF rej = "" /\ ~GradPost(h0, r, a) THEN Bad("gen", "gradient registers / selectors after the helper", [q |-> q, cSel |-> r.cSel, nSel |-> r.nSel, cSel0 |-> h0.cSel, nSel0 |-> h0.nSel])
+     ELSE IF rej = "" /\ ~GeomOK(ev, a.m) THEN Bad("gen", "gradient geometry", a.m)
+     ELSE UNCHANGED << srcLine, r, skip, nbad, njudged, nskipgeo, h0 >>
+
+TVSkip == Trace[l].ev # "rsrc" /\ skip /\ UNCHANGED << srcLine, r, skip, nbad, njudged, nskipgeo, h0 >>
 
 TVCall ==
   /\ Trace[l].ev = "call" /\ ~skip
@@ -178,9 +219,9 @@ TVCall ==
      ELSE /\ r' = n
           /\ njudged' = IF res.judge \in {"exact", "tol", "arc", "draw"} THEN njudged + 1 ELSE njudged
           /\ nskipgeo' = IF res.judge = "none" THEN nskipgeo + 1 ELSE nskipgeo
-          /\ UNCHANGED << srcLine, skip, nbad >>
+          /\ UNCHANGED << srcLine, skip, nbad, h0 >>
 
-Next == l <= Len(Trace) /\ l' = l + 1 /\ (TVSrc \/ TVSkip \/ TVCall \/ TVSet)
+Next == l <= Len(Trace) /\ l' = l + 1 /\ (TVSrc \/ TVSkip \/ TVCall \/ TVSet \/ TVMCall \/ TVRead \/ TVHStart \/ TVHelper)
 Spec == Init /\ [][Next]_vars
 Done == l = Len(Trace) + 1
 Report == Done => PrintT(ToJson([diag |-> "summary", lines |-> Len(Trace), nbad |-> nbad,
